@@ -287,6 +287,19 @@ for _pl, _f in (("kpiece1", "src/ompl/geometric/planners/kpiece/src/KPIECE1.cpp"
                       sources=[dict(name="epilogue", file=_f, begin=r"bool solved = false;\s*bool approximate = false;", end=r"return \{solved, approximate\};", rules=EP_RULES, loops={"allow_uncontracted": True}, wrap_braces=False)],
                       canaries=[dict(name="approximate_flag_dropped", where="body:epilogue", rx=r"approximate = true;", repl=";")]))
 
+# ---------------------------------------------------------------- the per-motion exact / approximate bookkeeping of the same planners
+REC_RULES = [(r"(?:bool (\w+)|(solved)) = goal->isSatisfied\(motion->state, &dist\);", lambda m: "bool %s = GOAL_SAT(motion, &dist);" % m.group(1) if m.group(1) else "solved = GOAL_SAT(motion, &dist);", 0),
+             (r"projectionEvaluator_->computeCoordinates\(motion->state, xcoord\);", "", 0), (r"disc_\.addMotion\(motion, xcoord, dist\);", "", 0), (r"Grid::Cell \*toCell = addMotion\(motion, dist\);", "", 0), (r"\bnullptr\b", "NIL", 0)]
+REC_PLANNERS = (("kpiece1", "src/ompl/geometric/planners/kpiece/src/KPIECE1.cpp", "C01"), ("est", "src/ompl/geometric/planners/est/src/EST.cpp", "C01"), ("projest", "src/ompl/geometric/planners/est/src/ProjEST.cpp", "C01"),
+                ("stride", "src/ompl/geometric/planners/stride/src/STRIDE.cpp", "C01"), ("ctrl_est", "src/ompl/control/planners/est/src/EST.cpp", "C02"), ("ctrl_kpiece1", "src/ompl/control/planners/kpiece/src/KPIECE1.cpp", "C02"))
+REC_UNITS = {}
+for _pl, _f, _prop in REC_PLANNERS:
+    REC_UNITS.setdefault(_prop, []).append(dict(name="%s_%s_solution_record" % (_prop.lower(), _pl), template="C01/record.c", mode="plain", entry="h_record", flags=["--bounds-check", "--pointer-check"], unwind=6, level="bounded",
+        bound="<= 3 motions examined", backend="cadical", timeout=300, functions=["%s::solve (exact / approximate bookkeeping per new motion)" % _pl],
+        sources=[dict(name="record", file=_f, begin=r"(?:bool \w+|solved) = goal->isSatisfied\(motion->state, &dist\);", end=r"approxsol = motion;\s*\}", end_inclusive=True, rules=REC_RULES, loops={"allow_uncontracted": True}, wrap_braces=False)],
+        canaries=[dict(name="approximate_not_strictly_closer", where="body:record", rx=r"if \(dist < approxdif\)", repl="if (dist > approxdif)")]))
+UNITS += REC_UNITS["C01"]
+
 # roadmap planners: a new problem definition forgets the old query's start/goal milestones (otherwise the old query's path is reported for the new one) -- units of C03
 def _c03_query_units():
     sp = importlib.util.spec_from_file_location("c03q", os.path.join(os.path.dirname(__file__), "C03.py")); m = importlib.util.module_from_spec(sp)
